@@ -43,7 +43,7 @@ Under(p, d) == IF p = d THEN TRUE ELSE IF p \notin Dom(par) THEN FALSE ELSE IF p
 
 Content(i) == <<ino[i].o, ino[i].hd, ino[i].n>>
 Prot == IF hdr = <<>> THEN {} ELSE SeqToSet(hdr.prot)
-Obs(nsx, inox, p) == IF p \notin Dom(nsx) THEN "ABSENT" ELSE <<inox[nsx[p]].o, inox[nsx[p]].hd, inox[nsx[p]].n>>
+Obs(nsx, inox, p) == IF p \notin Dom(nsx) THEN <<"ABSENT", 0, 0>> ELSE <<inox[nsx[p]].o, inox[nsx[p]].hd, inox[nsx[p]].n>>
 Observe(nsx, inox, h) == [p \in Dom(h) |-> h[p] \cup {Obs(nsx, inox, p)}]
 
 ----------------------------------------------------------------------------
@@ -165,7 +165,7 @@ DoCall(e) ==
                 ELSE IF e.op \in {"rename", "link"} /\ e.b \in created' /\ ~e.bhid THEN v1 \cup {e.b}
                 ELSE v1
   /\ hist' = LET h1 == Observe(ns', ino', hist) IN
-             IF TornWrite(e) THEN [p \in Dom(h1) |-> IF p \in Dom(ns) /\ ns[p] = fds[e.h] THEN h1[p] \cup {"PARTIAL"} ELSE h1[p]] ELSE h1
+             IF TornWrite(e) THEN [p \in Dom(h1) |-> IF p \in Dom(ns) /\ ns[p] = fds[e.h] THEN h1[p] \cup {<<"PARTIAL", 0, 0>>} ELSE h1[p]] ELSE h1
   /\ UNCHANGED <<ns0, dirs0, ino0, hdr>>
 
 Step ==
@@ -220,7 +220,7 @@ Atomic ==
     \A p \in Dom(hist) :
       LET final == Obs(ns, ino, p)
           old == Obs(ns0, ino0, p) IN
-      hist[p] \subseteq {old, final} /\ "ABSENT" \notin (hist[p] \ {old})
+      hist[p] \subseteq {old, final}
 
 (* C02: at every point (= every crash point) whatever exists besides the initial entries and the named
    outputs is a hidden entry inside a directory that holds a destination *)
